@@ -240,6 +240,9 @@ class FlowFamily(ScenarioFamily):
             plan = gen.gen_resp_plan(r, tok.encode(), "POST",
                                      {"p_interim": 0.0, "p_conn_close": 0.0, "p_http10": 0.0,
                                       "p_think": 0.3, "framings": ["cl"], "body_len": r.choice([0, 10, 500])})
+            if r.random() < 0.25:
+                # the server answers (response head) before it has received the body
+                plan["h2_early_head"] = True
             op = {"op": "request", "token": tok, "method": "POST",
                   "url": f"{scheme}://a.test/t/{tok}", "resp": plan, "body": body,
                   "timeouts": {"read": 30.0, "write": 30.0, "pool": 60.0, "connect": 5.0}}
